@@ -30,7 +30,7 @@
 (*                    requeue / kill under the per-container latch uuidOp  *)
 (* Environment                                                             *)
 (*   UserCancel, UserHold, ProcSetRunning, ProcFinalize, ProcEnd,          *)
-(*   ProcCrash, VMBoot, VMBreak, OpSetIB (management API hold / drain /    *)
+(*   ProcCrash, VMBoot, VMBreak, VMReportBroken, SyncFail, OpSetIB (management API hold / drain /    *)
 (*   run), OpKillInstance (management API kill), Restart.  Not modelled:   *)
 (*   the instance tags through which idle behaviour survives a restart are *)
 (*   written asynchronously; here the idle behaviour simply persists.      *)
@@ -54,6 +54,7 @@ CONSTANTS NC, NW,            \* containers 1..NC, instance slots 1..NW
 VARIABLES api, procs, ib, ibv, lk, lkNext, pass, ever, pend, mode, \* contract
           q, upd, dontupd, nextq, updMark,                   \* queue cache
           wk, exitedP, probing, dirty, killing, broken, vmx, \* pool; VM truth [exists, booted], unresponsive VMs
+          rb,                                                \* VMs whose probe answers say "broken"
           phase, stale, rqE, rqRun, rqTodo, rqCur, unalloc, dontstart, overq,   \* scheduler
           op, spawn,                                         \* per-container operations
           bud, kf, last, hist
@@ -64,7 +65,7 @@ C == INSTANCE DispatchContract
 
 dcvars == <<api, procs, ib, ibv, lk, lkNext, pass, ever, pend, mode>>
 qv == <<q, upd, dontupd, nextq, updMark>>
-pv == <<wk, exitedP, probing, dirty, killing, broken, vmx>>
+pv == <<wk, exitedP, probing, dirty, killing, broken, vmx, rb>>
 sv == <<phase, stale, rqE, rqRun, rqTodo, rqCur, unalloc, dontstart, overq>>
 ov == <<op, spawn>>
 vars == <<dcvars, qv, pv, sv, ov, bud, kf, last, hist>>
@@ -73,7 +74,7 @@ view == <<dcvars, qv, pv, sv, ov, bud, kf>>
 NoEnt == [in |-> FALSE, state |-> "Queued", prio |-> 0]
 NoWk == [st |-> "absent", starting |-> {}, running |-> {}]
 NoVm == [exists |-> FALSE, booted |-> FALSE]
-NoProbe == [on |-> FALSE, booted |-> FALSE, ok |-> FALSE, list |-> {}]
+NoProbe == [on |-> FALSE, booted |-> FALSE, ok |-> FALSE, list |-> {}, rb |-> FALSE]
 NoOp == [k |-> "none", st |-> "none", rs |-> "Queued", rp |-> 0, age |-> 0]
 NoLast == [e |-> "none", c |-> 0, w |-> 0, s |-> "", p |-> 0]
 
@@ -87,7 +88,7 @@ Init ==
     /\ q = [c \in Ctrs |-> NoEnt] /\ upd = "idle" /\ dontupd = {} /\ nextq = [c \in Ctrs |-> NoEnt]
     /\ updMark = {}
     /\ wk = [w \in Wk |-> NoWk] /\ exitedP = [c \in Ctrs |-> "none"]
-    /\ probing = [w \in Wk |-> NoProbe] /\ dirty = {} /\ killing = [w \in Wk |-> {}] /\ broken = {} /\ vmx = [w \in Wk |-> NoVm]
+    /\ probing = [w \in Wk |-> NoProbe] /\ dirty = {} /\ killing = [w \in Wk |-> {}] /\ broken = {} /\ vmx = [w \in Wk |-> NoVm] /\ rb = {}
     /\ phase = "boot" /\ stale = {} /\ rqE = [c \in Ctrs |-> NoEnt] /\ rqRun = {} /\ rqTodo = {}
     /\ rqCur = 0 /\ unalloc = 0 /\ dontstart = FALSE /\ overq = FALSE
     /\ op = [c \in Ctrs |-> NoOp] /\ spawn = [c \in Ctrs |-> {}]
@@ -170,7 +171,7 @@ VMBoot(w) ==
     /\ vmx[w].exists /\ ~vmx[w].booted
     /\ vmx' = [vmx EXCEPT ![w].booted = TRUE]
     /\ Ev("none", 0, w) /\ H("vmboot", 0, w, "")
-    /\ UNCHANGED <<dcvars, qv, wk, exitedP, probing, dirty, killing, broken, sv, ov, bud, kf>>
+    /\ UNCHANGED <<dcvars, qv, wk, exitedP, probing, dirty, killing, broken, rb, sv, ov, bud, kf>>
 
 \* the VM stops answering (its processes go on)
 VMBreak(w) ==
@@ -178,7 +179,15 @@ VMBreak(w) ==
     /\ broken' = broken \cup {w}
     /\ bud' = [bud EXCEPT !.brk = @ - 1]
     /\ Ev("none", 0, w) /\ H("vmbreak", 0, w, "")
-    /\ UNCHANGED <<dcvars, qv, wk, exitedP, probing, dirty, killing, vmx, sv, ov, kf>>
+    /\ UNCHANGED <<dcvars, qv, wk, exitedP, probing, dirty, killing, vmx, rb, sv, ov, kf>>
+
+\* the VM starts answering "broken" to probes (it keeps working)
+VMReportBroken(w) ==
+    /\ bud.brk > 0 /\ vmx[w].exists /\ w \notin rb
+    /\ rb' = rb \cup {w}
+    /\ bud' = [bud EXCEPT !.brk = @ - 1]
+    /\ Ev("none", 0, w) /\ H("vmreportbroken", 0, w, "")
+    /\ UNCHANGED <<dcvars, qv, wk, exitedP, probing, dirty, killing, broken, vmx, sv, ov, kf>>
 
 \* operator: management API hold / drain / run
 OpSetIB(w, b) ==
@@ -195,7 +204,7 @@ OpKillInstance(w) ==
     /\ wk' = ShutdownWk(w) /\ dirty' = dirty \cup {w}
     /\ bud' = [bud EXCEPT !.opib = @ - 1]
     /\ Ev("none", 0, w) /\ H("opkill", 0, w, "")
-    /\ UNCHANGED <<dcvars, qv, exitedP, probing, killing, broken, vmx, sv, ov, kf>>
+    /\ UNCHANGED <<dcvars, qv, exitedP, probing, killing, broken, vmx, rb, sv, ov, kf>>
 
 ------------------------------------------------------------------------------
 (* Queue cache: container.Queue.Update *)
@@ -231,7 +240,7 @@ UpdEnd ==
     /\ phase' = IF phase = "boot" THEN "fix" ELSE phase
     /\ C!UpdApplyEff
     /\ Ev("updapply", 0, 0) /\ H("updend", 0, 0, "")
-    /\ UNCHANGED <<nextq, updMark, wk, probing, dirty, killing, broken, vmx,
+    /\ UNCHANGED <<nextq, updMark, wk, probing, dirty, killing, broken, vmx, rb,
                    stale, rqE, rqRun, rqTodo, rqCur, unalloc, dontstart, overq, ov, bud, kf>>
 
 \* test.Queue.Update: poll and apply in one step
@@ -242,7 +251,7 @@ UpdAtomic ==
     /\ phase' = IF phase = "boot" THEN "fix" ELSE phase
     /\ C!UpdAtomicEff
     /\ Ev("updatomic", 0, 0) /\ H("update", 0, 0, "")
-    /\ UNCHANGED <<upd, dontupd, nextq, updMark, wk, probing, dirty, killing, broken, vmx,
+    /\ UNCHANGED <<upd, dontupd, nextq, updMark, wk, probing, dirty, killing, broken, vmx, rb,
                    stale, rqE, rqRun, rqTodo, rqCur, unalloc, dontstart, overq, ov, bud, kf>>
 
 ------------------------------------------------------------------------------
@@ -255,14 +264,23 @@ ProbeStart(w) ==
            bt == b0 \/ Reach(w)
            okk == (bt \/ wk[w].st = "unknown") /\ Reach(w)
        IN probing' = [probing EXCEPT ![w] = [on |-> TRUE, booted |-> bt, ok |-> okk,
-                                              list |-> IF okk THEN procs[w] ELSE {}]]
+                                              list |-> IF okk THEN procs[w] ELSE {}, rb |-> okk /\ w \in rb]]
     /\ dirty' = dirty \ {w}
     /\ Ev("none", 0, w) /\ H("probestart", 0, w, "")
-    /\ UNCHANGED <<dcvars, qv, wk, exitedP, killing, broken, vmx, sv, ov, bud, kf>>
+    /\ UNCHANGED <<dcvars, qv, wk, exitedP, killing, broken, vmx, rb, sv, ov, bud, kf>>
+
+\* first thing probeAndUpdate does with an answer that says "broken": drain the worker (unless the
+\* operator has set another idle behaviour); a separate step here, under the same lock in the code
+MustDrain(w) == probing[w].on /\ probing[w].rb /\ ib[w] = "run" /\ wk[w].st \notin {"absent", "shutdown"}
+ProbeDrain(w) ==
+    /\ MustDrain(w)
+    /\ C!SetIBEff(w, "drain")
+    /\ last' = [NoLast EXCEPT !.e = "setib", !.w = w, !.s = "drain"] /\ H("probedrain", 0, w, "")
+    /\ UNCHANGED <<qv, pv, sv, ov, bud, kf>>
 
 \* tmo: the boot / probe timeout has been reached (shutdownIfBroken)
 ProbeEnd(w, tmo) ==
-    /\ probing[w].on
+    /\ probing[w].on /\ ~MustDrain(w)
     /\ probing' = [probing EXCEPT ![w] = NoProbe]
     /\ LET p == probing[w]
            failure == ~p.ok \/ (~p.booted /\ p.list = {} /\ wk[w].running = {})
@@ -289,7 +307,7 @@ ProbeEnd(w, tmo) ==
                   /\ killing' = [killing EXCEPT ![w] = @ \ gone]
                   /\ dirty' = IF gone # {} THEN dirty \cup {w} ELSE dirty
     /\ Ev(IF tmo THEN "probetimeout" ELSE "none", 0, w) /\ H("probeend", 0, w, IF tmo THEN "timeout" ELSE "")
-    /\ UNCHANGED <<dcvars, q, upd, dontupd, nextq, broken, vmx, sv, ov, bud, kf>>
+    /\ UNCHANGED <<dcvars, q, upd, dontupd, nextq, broken, vmx, rb, sv, ov, bud, kf>>
 
 \* remoteRunner.Start executes on the VM, then starting -> running under the pool lock
 StartExec(w, c) ==
@@ -300,7 +318,7 @@ StartExec(w, c) ==
     /\ wk' = [wk EXCEPT ![w].starting = @ \ {c}, ![w].running = @ \cup {c}]
     /\ dirty' = dirty \cup {w}
     /\ H("startexec", c, w, IF Reach(w) THEN "ok" ELSE "fail")
-    /\ UNCHANGED <<qv, exitedP, probing, killing, broken, vmx, sv, ov, bud, kf>>
+    /\ UNCHANGED <<qv, exitedP, probing, killing, broken, vmx, rb, sv, ov, bud, kf>>
 
 \* one round of the remoteRunner.Kill loop for the runner of c on w
 KillTick(w, c) ==
@@ -320,7 +338,7 @@ KillTick(w, c) ==
                     /\ killing' = [killing EXCEPT ![w] = @ \ {c}]
                     /\ UNCHANGED dcvars /\ Ev("none", c, w)
     /\ H("killtick", c, w, "")
-    /\ UNCHANGED <<q, upd, dontupd, nextq, probing, broken, vmx, sv, ov, bud, kf>>
+    /\ UNCHANGED <<q, upd, dontupd, nextq, probing, broken, vmx, rb, sv, ov, bud, kf>>
 
 \* runProbes: shutdownIfIdle (idle timeout or drain)
 IdleShutdown(w) ==
@@ -329,16 +347,22 @@ IdleShutdown(w) ==
        \/ wk[w].st = "booting" /\ ib[w] = "drain"
     /\ wk' = ShutdownWk(w) /\ dirty' = dirty \cup {w}
     /\ Ev("idleshutdown", 0, w) /\ H("idleshutdown", 0, w, "")
-    /\ UNCHANGED <<dcvars, qv, exitedP, probing, killing, broken, vmx, sv, ov, bud, kf>>
+    /\ UNCHANGED <<dcvars, qv, exitedP, probing, killing, broken, vmx, rb, sv, ov, bud, kf>>
 
 \* instance.Destroy succeeds (failures are the steps where it does not happen)
 DestroyOK(w) ==
     /\ wk[w].st = "shutdown" /\ vmx[w].exists
     /\ vmx' = [vmx EXCEPT ![w] = NoVm]
     /\ C!VmGoneEff(w)
-    /\ broken' = broken \ {w}
+    /\ broken' = broken \ {w} /\ rb' = rb \ {w}
     /\ Ev("vmgone", 0, w) /\ H("destroyok", 0, w, "")
     /\ UNCHANGED <<qv, wk, exitedP, probing, dirty, killing, sv, ov, bud, kf>>
+
+\* pool.runSync: the cloud's list call fails (rate limit, error): nothing changes, the timer is set
+\* again; that InstanceGone / DestroyOK are weakly fair says that some later sync succeeds
+SyncFail ==
+    /\ Ev("none", 0, 0) /\ H("syncfail", 0, 0, "")
+    /\ UNCHANGED <<dcvars, qv, pv, sv, ov, bud, kf>>
 
 \* pool.sync: the instance is no longer listed; its runners are abandoned (no exited placeholder)
 InstanceGone(w) ==
@@ -348,7 +372,7 @@ InstanceGone(w) ==
     /\ probing' = [probing EXCEPT ![w] = NoProbe]
     /\ broken' = broken \ {w}
     /\ Ev("none", 0, w) /\ H("instancegone", 0, w, "")
-    /\ UNCHANGED <<dcvars, qv, exitedP, dirty, vmx, sv, ov, bud, kf>>
+    /\ UNCHANGED <<dcvars, qv, exitedP, dirty, vmx, rb, sv, ov, bud, kf>>
 
 ------------------------------------------------------------------------------
 (* Scheduler *)
@@ -367,7 +391,7 @@ Restart ==
     /\ op' = [c \in Ctrs |-> NoOp] /\ spawn' = [c \in Ctrs |-> {}]
     /\ C!RestartEff
     /\ Ev("restart", 0, 0) /\ H("restart", 0, 0, "")
-    /\ UNCHANGED <<broken, vmx, kf>>
+    /\ UNCHANGED <<broken, vmx, rb, kf>>
 
 \* fixStaleLocks: one evaluation of the loop condition and body
 FixIter ==
@@ -431,26 +455,26 @@ RQVisit(c) ==
     /\ LET e == rqE[c] IN
        IF c \in rqRun \/ e.prio < 1 \/ e.state \notin {"Queued", "Locked"}
        THEN /\ rqTodo' = rqTodo \ {c}
-            /\ UNCHANGED <<dcvars, q, dontupd, wk, vmx, killing, rqCur, unalloc, overq, spawn>> /\ Ev("none", c, 0)
+            /\ UNCHANGED <<dcvars, q, dontupd, wk, vmx, rb, killing, rqCur, unalloc, overq, spawn>> /\ Ev("none", c, 0)
        ELSE IF e.state = "Queued"
        THEN IF unalloc < 1 /\ AtQuota
             THEN /\ overq' = TRUE
-                 /\ UNCHANGED <<dcvars, q, dontupd, wk, vmx, killing, rqTodo, rqCur, unalloc, spawn>> /\ Ev("none", c, 0)
+                 /\ UNCHANGED <<dcvars, q, dontupd, wk, vmx, rb, killing, rqTodo, rqCur, unalloc, spawn>> /\ Ev("none", c, 0)
             ELSE IF HasRunner(c)
             THEN /\ killing' = KillSide(c)
                  /\ rqTodo' = rqTodo \ {c}
-                 /\ UNCHANGED <<dcvars, q, dontupd, wk, vmx, rqCur, unalloc, overq, spawn>> /\ Ev("none", c, 0)
+                 /\ UNCHANGED <<dcvars, q, dontupd, wk, vmx, rb, rqCur, unalloc, overq, spawn>> /\ Ev("none", c, 0)
             ELSE /\ spawn' = [spawn EXCEPT ![c] = @ \cup {"lock"}]
                  /\ unalloc' = IF unalloc > 0 THEN unalloc - 1 ELSE 0      \* may go negative in Go; floor is equivalent
                  /\ rqTodo' = rqTodo \ {c}
-                 /\ UNCHANGED <<dcvars, q, dontupd, wk, vmx, killing, rqCur, overq>> /\ Ev("none", c, 0)
+                 /\ UNCHANGED <<dcvars, q, dontupd, wk, vmx, rb, killing, rqCur, overq>> /\ Ev("none", c, 0)
        ELSE IF unalloc > 0
             THEN /\ unalloc' = unalloc - 1 /\ rqCur' = c /\ rqTodo' = rqTodo \ {c}
-                 /\ UNCHANGED <<dcvars, q, dontupd, wk, vmx, killing, overq, spawn>> /\ Ev("none", c, 0)
+                 /\ UNCHANGED <<dcvars, q, dontupd, wk, vmx, rb, killing, overq, spawn>> /\ Ev("none", c, 0)
             ELSE IF AtQuota
             THEN /\ UnlockNow(c)
                  /\ overq' = TRUE
-                 /\ UNCHANGED <<wk, vmx, killing, rqTodo, rqCur, unalloc, spawn>>
+                 /\ UNCHANGED <<wk, vmx, rb, killing, rqTodo, rqCur, unalloc, spawn>>
             ELSE \E w \in FreeSlots :                                        \* pool.Create
                  /\ vmx' = [vmx EXCEPT ![w] = [exists |-> TRUE, booted |-> FALSE]]
                  /\ UNCHANGED dcvars /\ Ev("none", 0, w)
@@ -459,7 +483,7 @@ RQVisit(c) ==
                  /\ UNCHANGED <<q, dontupd, killing, unalloc, overq, spawn>>
     /\ H("rqvisit", c, IF \E w \in Wk : wk'[w].st = "booting" /\ wk[w].st = "absent"
                        THEN CHOOSE w \in Wk : wk'[w].st = "booting" /\ wk[w].st = "absent" ELSE 0, "")
-    /\ UNCHANGED <<upd, nextq, updMark, exitedP, probing, dirty, broken, phase, stale, rqE, rqRun, dontstart,
+    /\ UNCHANGED <<upd, nextq, updMark, exitedP, probing, dirty, broken, rb, phase, stale, rqE, rqRun, dontstart,
                    op, bud, kf>>
 
 \* the start attempt for the Locked container rqCur
@@ -482,7 +506,7 @@ RQStart ==
           ELSE dontstart' = TRUE /\ UNCHANGED <<dcvars, wk, killing>> /\ Ev("none", c, 0)
     /\ rqCur' = 0
     /\ H("rqstart", rqCur, last'.w, "")
-    /\ UNCHANGED <<qv, exitedP, probing, dirty, broken, vmx, phase, stale, rqE, rqRun, rqTodo, unalloc, overq, ov, bud, kf>>
+    /\ UNCHANGED <<qv, exitedP, probing, dirty, broken, vmx, rb, phase, stale, rqE, rqRun, rqTodo, unalloc, overq, ov, bud, kf>>
 
 RQEnd ==
     /\ phase = "rq" /\ rqCur = 0 /\ (rqTodo = {} \/ overq)
@@ -511,7 +535,7 @@ RQTailEnd ==
           ELSE UNCHANGED <<wk, dirty>>
     /\ phase' = "sync"
     /\ Ev("none", 0, 0) /\ H("rqtailend", 0, 0, "")
-    /\ UNCHANGED <<dcvars, qv, exitedP, probing, killing, broken, vmx, stale, rqE, rqRun, rqTodo, rqCur, unalloc,
+    /\ UNCHANGED <<dcvars, qv, exitedP, probing, killing, broken, vmx, rb, stale, rqE, rqRun, rqTodo, rqCur, unalloc,
                    dontstart, overq, ov, bud, kf>>
 
 \* sync: decisions on its own snapshots; goroutines are spawned, Forget is done inline
@@ -559,7 +583,7 @@ GoStart(c, k) ==
        ELSE /\ op' = [op EXCEPT ![c] = [NoOp EXCEPT !.k = k, !.st = "latched"]]
             /\ UNCHANGED <<killing, exitedP>>
     /\ Ev("none", c, 0) /\ H("gostart", c, 0, k)
-    /\ UNCHANGED <<dcvars, qv, wk, probing, dirty, broken, vmx, sv, bud, kf>>
+    /\ UNCHANGED <<dcvars, qv, wk, probing, dirty, broken, vmx, rb, sv, bud, kf>>
 
 \* the API server performs the call
 ApiCommit(c) ==
@@ -601,12 +625,12 @@ ApiResp(c) ==
 ------------------------------------------------------------------------------
 EnvNext == \/ \E c \in Ctrs : UserCancel(c) \/ UserHold(c)
            \/ \E w \in Wk, c \in Ctrs : ProcSetRunning(w, c) \/ ProcFinalize(w, c) \/ ProcEnd(w, c) \/ ProcCrash(w, c)
-           \/ \E w \in Wk : VMBoot(w) \/ VMBreak(w) \/ OpSetIB(w, "hold") \/ OpSetIB(w, "drain") \/ OpSetIB(w, "run")
+           \/ \E w \in Wk : VMBoot(w) \/ VMBreak(w) \/ VMReportBroken(w) \/ OpSetIB(w, "hold") \/ OpSetIB(w, "drain") \/ OpSetIB(w, "run")
                             \/ OpKillInstance(w)
            \/ Restart
 
-PoolNext == \/ UpdStart \/ UpdEnd \/ UpdAtomic
-            \/ \E w \in Wk : ProbeStart(w) \/ ProbeEnd(w, FALSE) \/ ProbeEnd(w, TRUE) \/ IdleShutdown(w)
+PoolNext == \/ UpdStart \/ UpdEnd \/ UpdAtomic \/ SyncFail
+            \/ \E w \in Wk : ProbeStart(w) \/ ProbeDrain(w) \/ ProbeEnd(w, FALSE) \/ ProbeEnd(w, TRUE) \/ IdleShutdown(w)
                              \/ DestroyOK(w) \/ InstanceGone(w)
             \/ \E w \in Wk, c \in Ctrs : StartExec(w, c) \/ KillTick(w, c)
             \/ \E c \in Ctrs : ApiCommit(c) \/ ApiFail(c) \/ ApiResp(c)
@@ -649,7 +673,8 @@ Fairness ==
     /\ WF_vars(SchedNext)
     /\ WF_vars(UpdAtomic) /\ WF_vars(UpdStart) /\ WF_vars(UpdEnd)
     /\ \A w \in Wk : /\ WF_vars(ProbeStart(w)) /\ WF_vars(ProbeEnd(w, FALSE)) /\ SF_vars(ProbeEnd(w, TRUE))
-                     /\ WF_vars(IdleShutdown(w) /\ ~Wanted) /\ WF_vars(DestroyOK(w)) /\ WF_vars(InstanceGone(w))
+                     /\ WF_vars(IdleShutdown(w) /\ (~Wanted \/ ib[w] = "drain")) /\ WF_vars(DestroyOK(w)) /\ WF_vars(InstanceGone(w))
+                     /\ WF_vars(ProbeDrain(w))
                      /\ SF_vars(VMBoot(w))     \* "a cloud that eventually supplies working instances"
     /\ \A w \in Wk, c \in Ctrs : /\ WF_vars(StartExec(w, c)) /\ WF_vars(KillTick(w, c))
                                  /\ WF_vars(ProcSetRunning(w, c)) /\ WF_vars(ProcFinalize(w, c)) /\ WF_vars(ProcEnd(w, c))
@@ -661,7 +686,7 @@ Fairness ==
 \* ... and TimeoutBooting / TimeoutProbe are longer than a working instance needs to boot / answer
 \* (only instances that have stopped answering run into them).
 NextLive == /\ NextAtomic
-            /\ (last'.e = "idleshutdown" => ~Wanted)
+            /\ (last'.e = "idleshutdown" => (~Wanted \/ ib[last'.w] = "drain"))
             /\ (last'.e = "probetimeout" => last'.w \in broken)
 LiveSpec == Init /\ [][NextLive]_vars /\ Fairness
 
@@ -674,6 +699,11 @@ Released == <>[]((\A c \in Ctrs : api[c].prio = 0 \/ Final(c)) => \A w \in Wk : 
 NotStuck == \A c \in Ctrs : (api[c].state \in {"Locked", "Running"} /\ C!NoProc(c)) ~> (api[c].state \notin {"Locked", "Running"} \/ ~C!NoProc(c))
 \* an instance that does not answer is shut down
 BrokenGoes == \A w \in Wk : (w \in broken) ~> (w \notin broken)
+\* an instance that reports itself broken is drained and shut down ...
+ReportedGoes == \A w \in Wk : (w \in rb) ~> (w \notin rb)
+\* ... instead of receiving more work: once the dispatcher has processed such an answer (the worker is
+\* draining) no container is handed to it (safety, checked as an invariant)
+NoWorkForDraining == \A w \in Wk : (last.e = "startcall" /\ last.w = w) => ib[w] = "run"
 
 ------------------------------------------------------------------------------
 (* Design-level checks *)
